@@ -23,7 +23,9 @@ def _run_scenario(c, fn):
     e = [x for x in INDEX if x["file"] == fn][0]
     src = os.environ.get("PYVC_REPO_SRC", "/repo/src")
     env = dict(os.environ, PYTHONPATH=src, PYTHONDONTWRITEBYTECODE="1", PYTHONHASHSEED="0")
-    r = subprocess.run([sys.executable, os.path.join(SC, fn)], capture_output=True, text=True, env=env, timeout=600, cwd="/tmp")
+    import tempfile
+    with tempfile.TemporaryDirectory(prefix="pyvc_sc_") as wd:      # scenarios may write files (XML databases): keep them out of the way
+        r = subprocess.run([sys.executable, os.path.join(SC, fn)], capture_output=True, text=True, env=env, timeout=600, cwd=wd)
     out = (r.stdout + r.stderr)[-1500:]
     harness = ("NameError", "SyntaxError", "IndentationError", "ImportError", "ModuleNotFoundError")
     last = [l for l in r.stderr.strip().splitlines()[-1:]]
